@@ -1643,3 +1643,64 @@ def r16_6(rep):
     wrapper file is written (the defect repaired by the `fix:` commit for C01/C16)."""
     n = check_queue_survives(rep)
     rep.need(n > 0, "a `CodegenResult::new` call")
+
+
+# ---------------------------------------------------------------------------------------------------------------------
+# R16.7 — added by the main session after an independently seeded change was missed (`IntKind::ULongLong` serialised as
+# "unsigned long" while moving the table into a helper).
+C_SPELLING = {
+    "ir::int::IntKind": {"Bool": "bool", "SChar": "signed char", "UChar": "unsigned char", "WChar": "wchar_t", "Short": "short",
+                         "UShort": "unsigned short", "Int": "int", "UInt": "unsigned int", "Long": "long", "ULong": "unsigned long",
+                         "LongLong": "long long", "ULongLong": "unsigned long long", "Char": "char"},
+    "ir::ty::FloatKind": {"Float16": "_Float16", "Float": "float", "Double": "double", "LongDouble": "long double", "Float128": "__float128"},
+}
+
+
+COMPLEX_SPELLING = {"Float128": "__complex128"}
+
+
+def _fmt_text(v):
+    import re as _re
+    return _re.sub(r"[\x00-\x1f]", "", v or "").replace("�", "{}")
+
+
+@RULES.rule("R16.7", "wrapper signatures spell every C scalar type by its own C name", floor=18)
+def r16_7(rep):
+    """The wrapper is compiled by a C compiler against the original static function: `unsigned long f__extern(unsigned long)`
+    for an `unsigned long long` function silently truncates on ILP32/LLP64 targets while the Rust binding passes 64 bits."""
+    from hir import pat_variants as _pv
+    prog = rep.prog
+    found = {}
+    for p, b in prog.bodies.items():
+        if not (p.startswith("codegen::serialize") or "codegen::serialize::" in p):
+            continue
+        for m in b.walk():
+            if m["k"] != "Match":
+                continue
+            for enum, table in C_SPELLING.items():
+                rows = []
+                for a in m["arms"]:
+                    vs = [v[len(enum) + 2:] for v in _pv(a["pat"]) if v.startswith(enum + "::")]
+                    if not vs:
+                        continue
+                    lits = [_fmt_text(x.get("v")) for x in b.walk(a["body"]) if x["k"] == "Lit" and x.get("lk") in ("str", "bytes") and isinstance(x.get("v"), str)]
+                    rows.append((vs, "".join(lits).strip(), a))
+                if len(rows) >= 3:
+                    for vs, text, a in rows:
+                        for v in vs:
+                            if v in table:
+                                found.setdefault((enum, v), []).append((text, b, a))
+    for enum, table in C_SPELLING.items():
+        short = enum.split("::")[-1]
+        for v, want in table.items():
+            hits = found.get((enum, v), [])
+            if not hits:
+                if short == "FloatKind" or v in ("Bool", "SChar", "UChar", "WChar", "Short", "UShort", "Int", "UInt", "Long", "ULong", "LongLong", "ULongLong", "Char"):
+                    rep.bad("c-name:%s::%s" % (short, v), "no serialisation row for %s::%s" % (short, v))
+                continue
+            for text, b, a in hits:
+                is_complex = any(kind == "arm" and any("TypeKind::Complex" in x for x in _pv(g[0]["arms"][g[1]]["pat"]))
+                                 for pol, kind, g in b.guards(a["body"]))
+                expect = COMPLEX_SPELLING.get(v, want + " complex") if is_complex else want
+                rep.check(text == expect, "c-name:%s::%s%s" % (short, v, ":complex" if is_complex else ""),
+                          "%s::%s is written as `%s` (C spelling: `%s`)" % (short, v, text, expect), b.loc(a["body"]))
